@@ -110,8 +110,8 @@ func (x *Exec) freshSlice(name string, elem types.Type) Slice {
 	s.Off = x.fc.fresh(name+"#off", "Int")
 	s.Len = x.fc.fresh(name+"#len", "Int")
 	s.Cap = x.fc.fresh(name+"#cap", "Int")
-	x.fc.assume("true", fmt.Sprintf("(and (>= %s 0) (>= %s 0) (<= 0 %s) (<= %s %s) (<= (+ %s %s) %s))",
-		s.Arr, s.Off, s.Len, s.Len, s.Cap, s.Off, s.Cap, maxSliceStr))
+	x.fc.assume("true", fmt.Sprintf("(and (>= %s 0) (>= %s 0) (<= 0 %s) (<= %s %s) (<= (+ %s %s) %s) (=> (= %s 0) (= %s 0)))",
+		s.Arr, s.Off, s.Len, s.Len, s.Cap, s.Off, s.Cap, maxSliceStr, s.Arr, s.Cap))
 	return s
 }
 
